@@ -1,3 +1,4 @@
+import GenlmModel.Proofs.GenLink.Cfglm
 import Batteries.Tactic.Alias
 import GenlmModel.Proofs.AddEos
 import GenlmModel.Proofs.Norm
@@ -5,6 +6,12 @@ import GenlmModel.Proofs.LimPrefix
 import GenlmModel.Proofs.LimNorm
 /-! # C20 — local normalisation; EOS wrapping -/
 namespace Genlm.Props.C20
+/-! ## re-checked tie to the source: the definitions REGENERATED from the Python builder functions on every run
+(`Generated/Builders.lean`, by `harness/translate.py`) are the hand-written models the theorems below are about -/
+alias gen_add_EOS_eq_model := Genlm.gen_add_EOS_eq_model
+alias gen_add_EOS_derivation_sums := Genlm.gen_add_EOS_WN
+alias gen_locally_normalize_eq_model := Genlm.gen_locally_normalize_eq_model
+
 alias heads_sum_to_one := Genlm.ln_heads_sum_one_drop
 alias proportional := Genlm.ln_proportional_drop
 alias proportional_div := Genlm.ln_proportional_div
